@@ -6,7 +6,7 @@ inductive Verdict
   | mismatch (msg : String)   -- model and implementation disagree (correspondence broken)
   | oracle (msg : String)     -- the property's oracle is false on the implementation's own output
   | bad (msg : String)        -- the line could not be read
-  deriving Repr
+  deriving Repr, Inhabited
 
 def toks (line : String) : List String :=
   (line.splitOn " ").filter (· ≠ "")
